@@ -55,7 +55,7 @@ func (p *CPlan) Valid() bool {
 			return false
 		}
 		for _, o := range t {
-			if o.Off > spanMax || o.D < 0 || !(o.K == opPushMsg || o.K == opPushRaw || o.K == opSleep || o.K == opMaintain || o.K == opClose) {
+			if o.Off > spanMax || o.D < 0 || !(o.K == opPushMsg || o.K == opPushRaw || o.K == opSleep || o.K == opMaintain || o.K == opClose || o.K == opPushBad) {
 				return false
 			}
 		}
@@ -126,6 +126,9 @@ func GenCPlan(r *core.Rng) *CPlan {
 					k = opPushRaw
 				}
 				typ := core.Pick[uint16](r, tSYSCALL, tSYSCALL, tPATH, tPROCTITLE, tEOE, tUSERAUTH, tCWD)
+				if r.Chance(1, 25) {
+					k, typ = opPushBad, uint16(r.Intn(5))
+				}
 				ops = append(ops, COp{K: k, Off: uint32(r.Intn(noffs)), Typ: typ})
 			case 1:
 				ops = append(ops, COp{K: opMaintain})
@@ -173,6 +176,35 @@ func GenCPlan(r *core.Rng) *CPlan {
 	}
 	for i := 0; i < n; i++ {
 		p.Tape = append(p.Tape, uint16(r.Intn(1<<16)))
+	}
+	return p
+}
+
+// GenCPlanFirst draws the plan for the first run of a worker process: every
+// task begins with the same kind of call (a raw record, an unparsable raw
+// record, a message), so that whatever the library sets up on first use of
+// that path is set up by concurrent callers.
+func GenCPlanFirst(r *core.Rng) *CPlan {
+	p := GenCPlan(r)
+	for len(p.Tasks) > 3 {
+		p.Tasks = p.Tasks[:len(p.Tasks)-1]
+	}
+	first := COp{K: core.Pick(r, opPushBad, opPushBad, opPushRaw, opPushMsg), Typ: tSYSCALL}
+	if first.K == opPushBad {
+		first.Typ = uint16(r.Intn(5))
+	}
+	for t := range p.Tasks {
+		f := first
+		f.Off = uint32(t % 2)
+		p.Tasks[t] = append([]COp{f}, p.Tasks[t]...)
+		if len(p.Tasks[t]) > 40 {
+			p.Tasks[t] = p.Tasks[t][:40]
+		}
+	}
+	if len(p.Tape) < 40 {
+		for i := 0; i < 40; i++ {
+			p.Tape = append(p.Tape, uint16(r.Intn(1<<16)))
+		}
 	}
 	return p
 }
@@ -345,6 +377,12 @@ func ExecCPlan(p *CPlan, trace bool) *core.Result {
 				case opPushRaw:
 					raw := fmt.Sprintf("audit(%d.%03d:%d): id=%d", 1500000000, 0, p.Base+op.Off, opid)
 					err = ra.Push(auparse.AuditMessageType(op.Typ), []byte(raw))
+				case opPushBad:
+					// an unparsable record of this stream (Typ picks which part of the header is damaged)
+					sq := p.Base + op.Off
+					raw := []string{fmt.Sprintf("node=host(1) audit(1500000000.000:%d): id=%d", sq, opid), "garbage", fmt.Sprintf("audit(1x5.000:%d): id=%d", sq, opid),
+						fmt.Sprintf("audit(1500000000.000:%dz): id=%d", sq, opid), ""}[int(op.Typ)%5]
+					err = ra.Push(auparse.AuditMessageType(tSYSCALL), []byte(raw))
 				case opMaintain:
 					err = ra.Maintain()
 				case opClose:
@@ -511,6 +549,15 @@ func judgeC11(p *CPlan, evs []core.Ev, res *core.Result, sc *core.Sched) {
 		case evMsg:
 			id := e.B
 			o := ops[id]
+			if o != nil && o.k == opPushBad && o.call >= 0 && o.call <= i && (o.ret < 0 || !o.err) {
+				// a record this harness meant as unparsable was accepted: it was pushed,
+				// with a sequence number the model does not know
+				delivered[id]++
+				if delivered[id] > 1 {
+					res.Add("C11", "duplicate-delivery", "delivery", fmt.Sprintf("message id %d delivered %d times", id, delivered[id]))
+				}
+				continue
+			}
 			if o == nil || !(o.k == opPushMsg || o.k == opPushRaw) || o.call < 0 || o.call > i {
 				res.Add("C11", "unknown-message", "delivery", fmt.Sprintf("callback #%d delivered id %d which was not pushed before", e.A, id))
 				continue
